@@ -82,6 +82,29 @@ def scan_assumptions(text):
     return out
 
 
+def run_group(cmd, timeout=None, **kw):
+    """subprocess.run(capture_output=True, text=True) in its own process group; on time-out the WHOLE group is killed
+    (cargo -> rustc / cbmc grandchildren would otherwise survive and keep a core busy for hours)"""
+    import signal
+    p = subprocess.Popen(cmd, stdout=subprocess.PIPE, stderr=subprocess.PIPE, text=True, start_new_session=True, **kw)
+    try:
+        out, err = p.communicate(timeout=timeout)
+    except subprocess.TimeoutExpired:
+        try:
+            os.killpg(p.pid, signal.SIGKILL)
+        except ProcessLookupError:
+            pass
+        p.communicate()
+        raise
+    except BaseException:
+        try:
+            os.killpg(p.pid, signal.SIGKILL)
+        except ProcessLookupError:
+            pass
+        raise
+    return subprocess.CompletedProcess(cmd, p.returncode, out, err)
+
+
 def run_verus_unit(name, expected_min_verified=1, timeout=900):
     """expand contracts/verus/<name>.vt against the snapshot and run Verus on it"""
     t0 = time.time()
@@ -103,7 +126,7 @@ def run_verus_unit(name, expected_min_verified=1, timeout=900):
     cmd = ["verus", name + ".rs", "--output-json", "--time", "--multiple-errors", "5"]
     res["cmd"] = " ".join(cmd)
     try:
-        p = subprocess.run(cmd, cwd=d, capture_output=True, text=True, timeout=timeout)
+        p = run_group(cmd, cwd=d, timeout=timeout)
     except subprocess.TimeoutExpired:
         res["reason"] = "verus timeout after %ds" % timeout
         res["wall_s"] = round(time.time() - t0, 2)
